@@ -49,24 +49,32 @@ def get(d, path):
     return d
 
 
-def check_timeseries(rows):
-    """rows: list of (time, data) with identical shape."""
+def check_timeseries(rows, order=None, keyfn=float):
+    """rows: list of (time, data) with identical shape.  `order`: insertion order of the raw data (raw data merged from
+    several emitters or reloaded from JSON is not in ascending key order); `keyfn`: type of the time keys.
+    The law is ALIGNMENT: whatever the order, cell i of every series is the value emitted at time[i]."""
     fails = []
-    data = {t: copy.deepcopy(r) for t, r in rows}
-    times = [t for t, _ in rows]
+    idx = list(range(len(rows))) if order is None else order
+    data = {keyfn(rows[i][0]): copy.deepcopy(rows[i][1]) for i in idx}
+    raw = copy.deepcopy(data)
     ts = timeseries_from_data(copy.deepcopy(data))
-    if ts.get('time') != times:
-        fails.append('time vector %s != emitted times %s' % (ts.get('time'), times))
+    times = ts.get('time')
+    if sorted(map(str, times or [])) != sorted(map(str, raw)):
+        fails.append('time vector %s is not the set of emitted times %s' % (times, list(raw)))
+        return fails
     for path, _ in leaves(rows[0][1]):
         series = get(ts, path)
-        want = [get(r, path) for _, r in rows]
+        want = [get(raw[t], path) for t in times]
         if series is KeyError or series != want:
-            fails.append('embedded timeseries of %s is %s, emitted values %s' % (path, series, want))
+            fails.append('embedded timeseries of %s is %s, but the values emitted at the times %s are %s'
+                         % (path, series, times, want))
     pts = path_timeseries_from_data(copy.deepcopy(data))
+    ptimes = pts.get('time')
     for path, _ in leaves(rows[0][1]):
-        want = [get(r, path) for _, r in rows]
+        want = [get(raw[t], path) for t in (ptimes or [])]
         if pts.get(path) != want:
-            fails.append('path timeseries of %s is %s, emitted values %s' % (path, pts.get(path), want))
+            fails.append('path timeseries of %s is %s, but the values emitted at the times %s are %s'
+                         % (path, pts.get(path), ptimes, want))
     extra = set(pts) - {p for p, _ in leaves(rows[0][1])} - {'time'}
     if extra:
         fails.append('path timeseries has extra entries %s' % sorted(extra))
@@ -198,6 +206,12 @@ def main():
         fails = []
         if stable:
             fails += check_timeseries(rows)
+            rng2 = random.Random(sd + '-order')
+            order = list(range(len(rows)))
+            rng2.shuffle(order)
+            # merged histories (several emitters on different grids) and histories reloaded from JSON (string keys)
+            fails += check_timeseries(rows, order=order)
+            fails += check_timeseries(rows, order=None, keyfn=lambda t: str(float(t) * 5))
         # nested queries that overlap (a path and its prefix) have no single expected answer: keep disjoint
         qs = [q for q in query if not any(q != o and q[:len(o)] == o for o in query)]
         fails += check_query(rows, qs)
